@@ -58,6 +58,33 @@ def _afrom_job(job):
     return n, dis[:5], vio[:5]
 
 
+def _aadd_job(job):
+    """(index into the address list, bits, lo, hi) -> every background value: write, locality, read-back; model"""
+    from dali import address as A
+    from dali.frame import ForwardFrame
+    idx, bits, lo, hi = job
+    gear, dev = cc.all_addrs()
+    a = (gear if bits == 16 else dev)[idx]
+    mask = ((1 << (hi + 1)) - 1) ^ ((1 << lo) - 1)
+    lines, impl, vio = [], [], []
+    t = cc.addr_tok(a)
+    rng = range(1 << 16) if bits == 16 else [(u << 8) | ((u * 37) & 0xFF) for u in range(1 << 16)]
+    for d in rng:
+        f = ForwardFrame(bits, d)
+        a.add_to_frame(f)
+        v = f.as_integer
+        lines.append("aadd %s %d %d" % (t, bits, d)); impl.append("ok %d %d" % (bits, v))
+        if (v ^ d) & ~mask:
+            vio.append(("aadd %s %d %d" % (t, bits, d), "only bits %d..%d change" % (hi, lo), v))
+        elif bits == 16 or (d >> 16) & 1:
+            back = A.from_frame(f)
+            if not (back == a) or type(back) is not type(a):
+                vio.append(("aadd %s %d %d" % (t, bits, d), t, cc.addr_tok(back)))
+    ans = cc.run_model("m_cmd", lines)
+    dis = [(l, m, i) for l, m, i in zip(lines, ans, impl) if m != i]
+    return len(lines), dis[:3], vio[:3]
+
+
 def _interleave_job(seed):
     """in a freshly forked process (no slice write has happened yet): address / instance writes interleaved
     with raw slice and bit writes at the codec's coordinates on frames of OTHER widths, in random order.
@@ -144,6 +171,16 @@ def correspond(ctx, corr):
 
     gear, dev = cc.all_addrs()
     insts, reserved = cc.all_insts()
+    if ctx.thorough:
+        # every address object x ALL 2^16 frames (gear) / all 2^16 upper halves (device)
+        jobs = [(i, 16, 9, 15) for i in range(len(gear))] + [(i, 24, 17, 23) for i in range(len(dev))]
+        for n, dis, vio in cc.parmap(_aadd_job, jobs):
+            corr.count("add_to_frame_all_backgrounds", n)
+            for l, m, i in dis:
+                corr.disagree("add_to_frame_all_backgrounds", l, m, i)
+            for l, w, g in vio:
+                corr.violate("address:local", l, w, g)
+        corr.exhaustive["add_to_frame: all 180 address objects x all 2^16 frames / upper halves"] = True
     lines, impl = [], []
 
     def add(line, ans):
